@@ -35,6 +35,7 @@ type Env struct {
 	inBody   bool // inside the loop body (after the header advanced the hidden range index)
 	atCallSite bool // evaluating a callee's ensures for assumption: trace functions are not available
 	fn       *ssa.Function // the function whose contract is being evaluated (nil for external contracts)
+	reps     map[string]*spec.Represents // ghost name -> coupling expression (refinement of an interface model contract)
 }
 
 type traceAtCallSite struct{}
@@ -633,6 +634,23 @@ func (env *Env) ghostLoc(v Value, name string) (string, smt.Term, smt.Sort, type
 
 func (env *Env) ghostField(v Value, name string) Value {
 	en := env.x.e
+	// refinement: when the implementation of an interface is verified against the interface's model contract, a ghost
+	// field of the receiver is read as the coupling expression declared with "represents"
+	if env.reps != nil {
+		if rp := env.reps[name]; rp != nil {
+			if pt, ok := types.Unalias(v.T).Underlying().(*types.Pointer); ok && !types.IsInterface(v.T) {
+				_ = pt
+				c := env.x.newEnv(env.st, nil)
+				c.pkgPath = rp.Pkg
+				c.imports = env.imports
+				c.names = map[string]Value{"this": v}
+				gt := env.resolveTypeIn(en.w.Ghosts[name].Type, en.w.Ghosts[name].Pkg)
+				r := c.eval(rp.Expr)
+				r.T = gt
+				return r
+			}
+		}
+	}
 	key, idx, sort, gt := env.ghostLoc(v, name)
 	arr := en.heapArr(env.st, key, idx.Sort, sort)
 	return scalar(gt, smt.Select(arr, idx))
